@@ -2106,6 +2106,13 @@ pub fn run(args: &Args) {
         run_case(&mut cx, &c, false);
         cx.sum.dist("many_record_builds");
     }
+    // 3e'. the trie store's builder with every key added three times: 48 .. 600 entries (beyond the sizes a sort handles by insertion)
+    for (spec, n) in [("nlt_builder2:default", 48u64), ("nlt_builder2:perf", 96), ("nlt_builder2:sec", 200), ("nlt_builder2:mem", 64), ("nlt_builder2:default", 600)] {
+        for plan in [8u64, 9, 12] {
+            run_case(&mut cx, &json!({"cell": spec, "kind": "build", "recs_gen": [n, 9, (args.seed % 11) + n], "plan": plan}), false);
+            cx.sum.dist("nlt_builder_duplicate_keys");
+        }
+    }
     for (cfgname, sw, bsz) in [("c0k0x4,32,16", 16u32, 16usize), ("c0k2x4,32,16", 16, 16), ("c0k0x5,24,20", 20, 32)] {
         let extra = if cfgname.as_bytes()[3] == b'2' { 4usize } else { 0 };
         for target in [(1usize << sw) - 1, 1 << sw, (1 << sw) + 1] {
